@@ -56,6 +56,75 @@ std::string hrefBetween(const std::string &fromDir, const std::string &toPath)
     return "../" + toPath.substr(3);
 }
 
+std::string libraryResolvePath(const std::string &filename, const std::string &base)
+{
+    std::string path = base.substr(0, base.find_last_of('/') + 1) + filename;
+    std::vector<std::string> segments;
+    size_t start = 0;
+    while (start <= path.size()) {
+        size_t end = path.find('/', start);
+        if (end == std::string::npos) {
+            end = path.size();
+        }
+        std::string segment = path.substr(start, end - start);
+        if (segment == ".." && !segments.empty() && segments.back() == ".") {
+            segments.back() = "..";
+        } else if (segment == ".." && !segments.empty() && !segments.back().empty() && segments.back() != "..") {
+            segments.pop_back();
+        } else if (segment != "." || start == 0) {
+            segments.push_back(segment);
+        }
+        start = end + 1;
+    }
+    std::string out;
+    for (size_t i = 0; i < segments.size(); ++i) {
+        out += (i == 0 ? "" : "/") + segments[i];
+    }
+    return out;
+}
+
+std::string libraryNormaliseBase(const std::string &basePath)
+{
+    std::string b = basePath;
+    if (!b.empty() && b.back() != '/') {
+        b += "/";
+    }
+    return b;
+}
+
+std::string relativeDir(const std::string &fromDir, const std::string &toDir)
+{
+    // both are absolute directories ending in '/'
+    auto split = [](const std::string &d) {
+        std::vector<std::string> parts;
+        std::string cur;
+        for (char c : d) {
+            if (c == '/') {
+                if (!cur.empty()) {
+                    parts.push_back(cur);
+                }
+                cur.clear();
+            } else {
+                cur += c;
+            }
+        }
+        return parts;
+    };
+    auto a = split(fromDir), b = split(toDir);
+    size_t common = 0;
+    while (common < a.size() && common < b.size() && a[common] == b[common]) {
+        ++common;
+    }
+    std::string out;
+    for (size_t i = common; i < a.size(); ++i) {
+        out += "../";
+    }
+    for (size_t i = common; i < b.size(); ++i) {
+        out += b[i] + "/";
+    }
+    return out;
+}
+
 Graph generateGraph(Rng &rng, const GraphParams &gp)
 {
     Graph g;
@@ -545,6 +614,11 @@ const FileVersion *Vfs::at(const std::string &normPath) const
     return &versions[size_t(it->second)];
 }
 
+std::string Vfs::absolute(const std::string &url) const
+{
+    return normalisePath(!url.empty() && url[0] == '/' ? url : cwd + url);
+}
+
 std::streambuf *Vfs::open(const std::string &url)
 {
     size_t index = opensThisCall++;
@@ -553,7 +627,7 @@ std::streambuf *Vfs::open(const std::string &url)
     }
     OpenRecord rec;
     rec.url = url;
-    rec.path = normalisePath(url);
+    rec.path = absolute(url);
     std::streambuf *result = nullptr;
     const FileVersion *v = url.size() > 4096 ? nullptr : at(rec.path); // PATH_MAX: the open fails with ENAMETOOLONG
     if (v != nullptr) {
@@ -676,7 +750,8 @@ struct Resolver
         if (u.imported) {
             stackImport.push_back(true);
             FileSpec scratch;
-            std::string rawUrl = normalisePath((f.rawDir.empty() ? f.dir : f.rawDir) + u.href); // the importer removes "." and "dir/.." segments
+            std::string rawBase = f.rawDirSet ? f.rawDir : f.dir;
+            std::string rawUrl = libraryResolvePath(u.href, rawBase); // the exact spelling the importer arrives at
             const FileSpec *g = load(normalisePath(f.dir + u.href), scratch, u.href, rawUrl);
             if (g == nullptr) {
                 ok = false;
@@ -690,7 +765,8 @@ struct Resolver
                 FileSpec copy = *g;
                 copy.rawUrl = rawUrl;
                     copy.servedVersion = lastVersion;
-                copy.rawDir = rawUrl.substr(0, rawUrl.find_last_of('/') + 1);
+                copy.rawDir = rawBase.substr(0, rawBase.find_last_of('/') + 1) + u.href.substr(0, u.href.find_last_of('/') + 1); // as the importer builds the next base: base + directory part of the URL, as written
+                copy.rawDirSet = true;
                 FileScope scope(*this, copy.path);
                 ok = needUnits(copy, u.ref, SOURCE);
             }
@@ -743,7 +819,8 @@ struct Resolver
         bool ok = true;
         if (c.imported) {
             FileSpec scratch;
-            std::string rawUrl = normalisePath((f.rawDir.empty() ? f.dir : f.rawDir) + c.href);
+            std::string rawBase = f.rawDirSet ? f.rawDir : f.dir;
+            std::string rawUrl = libraryResolvePath(c.href, rawBase);
             const FileSpec *g = load(normalisePath(f.dir + c.href), scratch, c.href, rawUrl);
             if (g == nullptr) {
                 ok = false;
@@ -759,7 +836,8 @@ struct Resolver
                     FileSpec copy = *g;
                     copy.rawUrl = rawUrl;
                     copy.servedVersion = lastVersion;
-                    copy.rawDir = rawUrl.substr(0, rawUrl.find_last_of('/') + 1);
+                    copy.rawDir = rawBase.substr(0, rawBase.find_last_of('/') + 1) + c.href.substr(0, c.href.find_last_of('/') + 1); // as the importer builds the next base: base + directory part of the URL, as written
+                copy.rawDirSet = true;
                     FileScope scope(*this, copy.path);
                     ok = needComp(copy, ti, SOURCE);
                 }
